@@ -8,6 +8,7 @@ import (
 	"go/parser"
 	"go/token"
 	"reflect"
+	"regexp"
 	"sort"
 	"strings"
 
@@ -241,11 +242,21 @@ func c12Check(c *fw.Ctx, label, cfg string, r *decorator.Restorer, df *dst.File,
 		}
 	}
 	var rcs, fcs []*ast.Comment
+	// go/printer reformats doc comments and in doing so adds or drops empty "//" lines; those are
+	// not positions the restorer is answerable for
 	for _, cg := range rf.Comments {
-		rcs = append(rcs, cg.List...)
+		for _, cm := range cg.List {
+			if stripWS(cm.Text) != "//" {
+				rcs = append(rcs, cm)
+			}
+		}
 	}
 	for _, cg := range ff.Comments {
-		fcs = append(fcs, cg.List...)
+		for _, cm := range cg.List {
+			if stripWS(cm.Text) != "//" {
+				fcs = append(fcs, cm)
+			}
+		}
 	}
 	if len(rcs) != len(fcs) {
 		viol("comment-count", "comment-count", fmt.Sprintf("restored ast has %d comments, printed text has %d", len(rcs), len(fcs)))
@@ -317,12 +328,20 @@ func c12Check(c *fw.Ctx, label, cfg string, r *decorator.Restorer, df *dst.File,
 			if hi2 > b1.Len() {
 				hi2 = b1.Len()
 			}
+			if tk.what == "TypeSpec.Assign" && genericAlias.Match([]byte(src)) {
+				viol("order-comment-token", "order:generic-type-alias", fmt.Sprintf("%s vs %s", cm.what, tk.what))
+				break
+			}
 			viol("order-comment-token", "order-comment-token:"+tk.what, fmt.Sprintf("%s (restored %d, printed %d) vs %s (restored %d, printed %d)\nprinted context:\n%s", cm.what, cm.r, cm.f, tk.what, tk.r, tk.f, b1.Bytes()[lo2:hi2]))
 			break
 		}
 		kind := "token-token"
 		if a.comment {
 			kind = "comment-comment"
+		}
+		if (a.what == "TypeSpec.Assign" || b.what == "TypeSpec.Assign") && genericAlias.Match([]byte(src)) {
+			viol("order-"+kind, "order:generic-type-alias", fmt.Sprintf("%s (restored %d, printed %d) vs %s (restored %d, printed %d)", a.what, a.r, a.f, b.what, b.r, b.f))
+			break
 		}
 		viol("order-"+kind, "order-"+kind+":"+a.what+"|"+b.what, fmt.Sprintf("%s (restored %d, printed %d) vs %s (restored %d, printed %d)", a.what, a.r, a.f, b.what, b.r, b.f))
 		break
@@ -590,3 +609,6 @@ func sameImportOrder(a, b *ast.File) bool {
 	}
 	return true
 }
+
+// a generic alias declaration: type A[P any] = ...
+var genericAlias = regexp.MustCompile(`(?m)^\s*(type\s+)?[A-Za-z_]\w*\[[^\]\n]*\]\s*=[^=]`)
